@@ -97,6 +97,9 @@ func exoticDoc(g *xgen.G) *xdoc.Doc {
 }
 
 func c15Tok(c *Case) {
+	if !c.Canary(500) {
+		return
+	}
 	g := c.G()
 	d := exoticDoc(c.GShared("doc", int64(c.Index/32)))
 	ctx := d.Nodes[g.Intn(len(d.Nodes))]
